@@ -6,8 +6,8 @@
     value (another value of the same class: a URL stays a URL, a datastore name a name, an enumerated value another member,
     free text non-empty free text) produce requests that differ in exactly ONE place — one text node, one attribute value or one
     element name — and what stands there is exactly the old and the new value.  That is "carried exactly once, at one
-    position, unaltered, and nothing else in the request depends on it", observed on the wire.  For a caller XML fragment: the
-    two requests differ in one subtree only.
+    position, unaltered, and nothing else in the request depends on it", observed on the wire.  For a caller XML fragment (subtree
+    filter): all differences lie inside the one subtree below <filter>.
 Cases are fresh draws of the generators of props/c07.py and harness/vendorops.py (all standard operations x 14 profiles, all 30
 vendor classes)."""
 import copy, json
@@ -195,9 +195,16 @@ def judge_pair(pair):
     d = tdiff(t1, t2)
     show = [(list(p), k, (va if isinstance(va, str) else '…'), (vb if isinstance(vb, str) else '…')) for p, k, va, vb in d][:6]
     if pair['kind'] == 'fragment':
-        if len(d) > 1:
-            return ('two calls that differ in one caller fragment (%s) give requests that differ in %d places' % ('.'.join(pair['path']), len(d)),
-                    'carries_frame', 'one differing subtree', show)
+        # all differences lie inside ONE subtree below the <filter> element (rpc / operation / filter / fragment: depth >= 3)
+        els = [[x for x in p if not isinstance(x, str)] for p, _, _, _ in d]
+        lcp = els[0] if els else []
+        for e in els[1:]:
+            n = 0
+            while n < min(len(lcp), len(e)) and lcp[n] == e[n]: n += 1
+            lcp = lcp[:n]
+        if d and len(lcp) < 3:
+            return ('two calls that differ in one caller fragment (%s) give requests that differ outside that fragment' % '.'.join(pair['path']),
+                    'carries_frame', 'all differences inside one subtree below <filter>', show)
         return None
     exp = (pair['old'], pair['new'])
     if len(d) != 1:
